@@ -2,10 +2,10 @@
    Definitions only.  API used by other models:
      ugm_state, ugm_init, ugm_increase, ugm_decrease, ugm_headroom, ugm_can_run_app,
      ugm_update_config.
-   Go maps are association lists in insertion order.  UpdateConfig iterates Go maps in three of
-   its phases; the model iterates them in list order, or in reverse list order when [ord] is
-   true (the correspondence check runs both and requires the implementation to agree with one,
-   see Oracles/UgmCheck.v). *)
+   Go maps are association lists in insertion order.  UpdateConfig iterates Go maps in its
+   reset phases; the model iterates them in list order by default and takes the order as a
+   parameter (update_config_gen): the correspondence check accepts the implementation's result
+   when it is the model's result for some order (see Oracles/UgmCheck.v). *)
 From Coq Require Import List NArith ZArith Bool.
 From YK Require Import Base.Int64 Base.Res Ugm.Tracker.
 Import ListNotations.
@@ -235,9 +235,9 @@ Fixpoint ipc_limits (p : path) (ls : list limit) (acc : ugm_state * newmaps) : u
 
 (* internalProcessConfig; the child path is queuePath + "." + strings.ToLower(child.Name) and the
    path handed in by UpdateConfig is lower-cased as well (fix of finding C05-mixed-case).
-   [lowerfix = false] is the pinned code (names used as they are written in the configuration). *)
-Definition cfgname (lowerfix : bool) (n : qname) : qname := if lowerfix then qlower n else n.
-Fixpoint ipc (lowerfix : bool) (cur : qconf) (p : path) (acc : ugm_state * newmaps) : ugm_state * newmaps * bool :=
+   [fixed = false] is the pinned code (names used as they are written in the configuration). *)
+Definition cfgname (fixed : bool) (n : qname) : qname := if fixed then qlower n else n.
+Fixpoint ipc (fixed : bool) (cur : qconf) (p : path) (acc : ugm_state * newmaps) : ugm_state * newmaps * bool :=
   let 'QConf _ ls qs := cur in
   let '(acc1, ok) := ipc_limits p ls acc in
   if negb ok then (acc1, false) else
@@ -246,7 +246,7 @@ Fixpoint ipc (lowerfix : bool) (cur : qconf) (p : path) (acc : ugm_state * newma
      | [] => (acc, true)
      | c :: t =>
          let 'QConf cn _ _ := c in
-         let '(acc', ok) := ipc lowerfix c (p ++ [cfgname lowerfix cn]) acc in
+         let '(acc', ok) := ipc fixed c (p ++ [cfgname fixed cn]) acc in
          if ok then go t acc' else (acc', false)
      end) qs acc1.
 
@@ -316,15 +316,17 @@ Definition clearUsers (s : ugm_state) (l : list (path * uname)) : ugm_state :=
 Definition map_users (s : ugm_state) (sel : uname -> bool) (f : qt -> qt) : ugm_state :=
   set_users s (map (fun '(u, ut) => if sel u then (u, mkUT (ut_links ut) (f (ut_qt ut))) else (u, ut)) (users s)).
 
-(* clearEarlierSetUserWildCardLimits *)
-Definition clearUserWild (ord : bool) (s : ugm_state) (nm : newmaps) : ugm_state :=
+(* clearEarlierSetUserWildCardLimits.  [fixed = false] is the pinned code, which skipped the
+   clearing of a dropped wild card limit when the queue had named user limits in the old and in
+   the new configuration (finding C05-stale-wildcard, fixed) *)
+Definition clearUserWild (fixed ord : bool) (s : ugm_state) (nm : newmaps) : ugm_state :=
   fold_left (fun s0 '(p, cur) =>
                let currentQPExists := has_path (userLimits s) p in
                let newQPExists := has_path (nUL nm) p in
                let sel := fun u => negb (in_sub (nUL nm) p u) || negb (in_sub (userLimits s) p u) in
                match plookup (nUW nm) p with
                | None =>
-                   if negb currentQPExists || negb newQPExists
+                   if fixed || negb currentQPExists || negb newQPExists
                    then map_users s0 sel (setLimit (userWild s) TUser p None 0 false true)
                    else s0
                | Some new =>
@@ -348,19 +350,26 @@ Definition replaceLimitConfigs (s : ugm_state) (nm : newmaps) : ugm_state :=
 
 Inductive uc_result := UOk (s : ugm_state) | UErr (s : ugm_state) | UCrash.
 
-(* UpdateConfig(config, queuePath) *)
-Definition update_config_gen (lowerfix ord : bool) (s : ugm_state) (conf : qconf) (rootName : qname) : uc_result :=
-  let '(s1, nm, ok) := ipc lowerfix conf [cfgname lowerfix rootName] (s, nm_empty) in
+(* the (path, group) pairs handed to resetGroupEarlierUsage, in list order *)
+Definition dropped_groups (fixed : bool) (s : ugm_state) (conf : qconf) (rootName : qname) : list (path * gname) :=
+  let '(s1, nm, ok) := ipc fixed conf [cfgname fixed rootName] (s, nm_empty) in
+  dropped false (groupLimits s1) (nGL nm).
+
+(* UpdateConfig(config, queuePath).  [pg] reorders the group resets (Go iterates maps there and
+   the outcome can depend on the order), [ord] reverses the iteration of the other phases. *)
+Definition update_config_gen (fixed : bool) (pg : list (path * gname) -> list (path * gname)) (ord : bool)
+           (s : ugm_state) (conf : qconf) (rootName : qname) : uc_result :=
+  let '(s1, nm, ok) := ipc fixed conf [cfgname fixed rootName] (s, nm_empty) in
   if negb ok then UErr s1 else
-  match clearGroups s1 (dropped ord (groupLimits s1) (nGL nm)) with
+  match clearGroups s1 (pg (dropped false (groupLimits s1) (nGL nm))) with
   | Crash => UCrash
   | Ok s2 =>
       let s3 := clearUsers s2 (dropped ord (userLimits s2) (nUL nm)) in
-      let s4 := clearUserWild ord s3 nm in
+      let s4 := clearUserWild fixed ord s3 nm in
       let s5 := applyUserWild ord s4 nm in
       UOk (replaceLimitConfigs s5 nm)
   end.
 
-(* the code as it is now in /repo (after fix: queue paths lower-cased) *)
+(* the code as it is now in /repo (with the two fix: commits), maps iterated in list order *)
 Definition ugm_update_config (s : ugm_state) (conf : qconf) (rootName : qname) : uc_result :=
-  update_config_gen true false s conf rootName.
+  update_config_gen true (fun l => l) false s conf rootName.
